@@ -39,3 +39,30 @@ prop(
     [st("checked", death_is_violation=True), st("release", death_is_violation=True)],
     ["spectral stable range evaluated on 64 warped frequencies from the hooked trajectory (after the postfilter law)"],
 )
+
+VOC_ASSUME = ["pulse response measured in periodic steady state (F0 = 20 Hz, frame = one period); its DFT equals H at the harmonics exactly", "cases that have not reached steady state within the frame cap are counted and skipped, never judged"]
+
+prop(
+    "C06",
+    "exploration",
+    "cases = random mel-cepstra (4 decay profiles, order 2..40, scaled to a spectral-shape magnitude in (0,2] nepers) x alpha in {0} U [0,0.6] x 6 sampling rates; measured on 65 or 257 harmonics; plus the exp(c0) gain law; non-trivial = shape >= 0.5 neper and order >= 3; distinct by (order, alpha bucket, rate)",
+    [st("checked")],
+    [st("checked"), st("release")],
+    VOC_ASSUME,
+)
+prop(
+    "C13",
+    "exploration",
+    "cases = random increasing LSP sets (order 2..24, every gap incl. to 0 and pi >= 1.001*pi/(4(m+1)), clustered and spread) x stage 1..4 x alpha x linear/log gain x 6 rates, compared with K/|A(e^{j w~})|^s built by polynomial multiplication, on harmonics within 100 dB of the peak; plus one fixed listed extreme set; non-trivial = model dynamic range >= 1 neper; distinct by (order, stage, alpha bucket, gain kind, rate)",
+    [st("checked")],
+    [st("checked"), st("release")],
+    VOC_ASSUME + ["diverging responses are classified by the model's dynamic range (beyond e^74 = (2^53)^2 they carry the listed known-finding signature)"],
+)
+prop(
+    "C14",
+    "exploration",
+    "cases = cepstra as C06 x beta in (0,0.5] x alpha x rates, order 3..40 (+ order 2 no-op, beta=0 identity); the measured log spectrum with beta must equal sum_{m>=1} c'_m cos(m w~) + const with c'_1=c_1, c'_m=(1+beta)c_m, the least-squares recovered cepstrum must agree, and the response energy must stay within 1 % when >= 99.99 % of it lies in 576 taps; non-trivial = energy law checked and the postfilter changed the response by > 1e-3; distinct by (order, alpha, beta bucket, rate)",
+    [st("checked")],
+    [st("checked"), st("release")],
+    VOC_ASSUME,
+)
